@@ -91,6 +91,9 @@ type sObs struct {
 	Has   map[string]bool   `json:"has"`
 	Get   map[string]string `json:"get"`
 	NErrs int               `json:"nerrs"`
+	// the empty name, probed apart
+	HasEmpty bool   `json:"has_empty"`
+	GetEmpty string `json:"get_empty"`
 }
 
 type sEvent struct {
@@ -282,12 +285,9 @@ func buildSchema(c sCase) *jsonapi.Schema {
 
 func observeSchema(s *jsonapi.Schema, probes []string) sObs {
 	o := sObs{Has: map[string]bool{}, Get: map[string]string{}}
+	o.HasEmpty = s.HasType("")
+	o.GetEmpty = s.GetType("").Name
 	for _, n := range probes {
-		key := n
-		if key == "" {
-			key = "_empty" // a JSON member name TLC can use as a record field
-		}
-		_ = key
 		o.Has[n] = s.HasType(ctn(n))
 		o.Get[n] = atn(s.GetType(ctn(n)).Name)
 	}
